@@ -142,6 +142,7 @@ class Module:
         if name is not None and val.name is not None:  # Both set, fail.
             msg = f"{val} with conflicting names {name} and {val.name} cannot be added to Module {self.name}"
             raise RuntimeError(msg)
+        _assert_addable(self, val, name if name is not None else val.name)
         if name is not None:  # One or the other set - great.
             val.name = name
 
@@ -182,6 +183,8 @@ class Module:
 
         # Check it's a valid attribute-type
         _assert_module_attr(self, val)
+
+        _assert_addable(self, val, key)
 
         # Checks out! Name `val` and add it to our type-based containers.
         val.name = key
@@ -309,6 +312,25 @@ _banned = [
 ]
 
 
+# Names which cannot be used for HDL attributes: the protected ones, plus the other native `Module` attributes
+_reserved = _banned + ["name", "bundle_ports"]
+
+
+def _assert_addable(module: Module, val: ModuleAttr, name: str) -> None:
+    """Raise a `RuntimeError` if `val` cannot be added to `module` as `name`.
+    Called before `val` is modified in any way."""
+
+    if name in _reserved:
+        msg = f"Invalid attribute name {name} for {val} in Module {module}"
+        raise RuntimeError(msg)
+    if module._elaborated is not None:
+        raise RuntimeError(f"Cannot add {val} to {module} after elaboration.")
+    for key, attr in module.namespace.items():
+        if attr is val and key != name:
+            msg = f"Cannot add {val} to {module} as {name}: it is already its attribute {key}"
+            raise RuntimeError(msg)
+
+
 def _add(module: Module, val: ModuleAttr) -> ModuleAttr:
     """Internal `Module.add` and `Module.__setattr__` implementation.
     Primarily sort `val` into one of our type-based containers.
@@ -336,6 +358,20 @@ def _add(module: Module, val: ModuleAttr) -> ModuleAttr:
         # The next line *should* never be reached, as outer layers should have checked `_is_module_attr`.
         # Nonetheless gotta raise an error if we get here, somehow.
         _attr_type_error(val)
+
+    # Remove any prior attribute of the same name, which may be of another kind
+    prior = module.namespace.get(val.name, None)
+    if prior is not None and prior is not val:
+        prior._parent_module = None  # No longer ours
+    for ctr in (
+        module.ports,
+        module.signals,
+        module.instances,
+        module.instarrays,
+        module.instbundles,
+        module.bundles,
+    ):
+        ctr.pop(val.name, None)
 
     # Add it to the module namespace, and the type-specific container
     type_ctr[val.name] = val
